@@ -111,8 +111,11 @@ def shape_validatePointer : List String := [
   "if hasOverwriteCheck(checks)",
   ">if np, changed := validatePointerWithOverwrite(ptr, checks, ctx); changed",
   ">>return np, nil",
-  "*ptr = v",
-  "return ptr, nil"
+  ">*ptr = v",
+  ">return ptr, nil",
+  "if sameValue(reflect.ValueOf(&v).Elem(), reflect.ValueOf(ptr).Elem())",
+  ">return ptr, nil",
+  "return &v, nil"
 ]
 
 def shape_validateWithChecks : List String := [
@@ -161,7 +164,9 @@ def clauseOf (fn : String) (i : Nat) : String :=
   | "validatePointer", 4 => "rejected by the validator: nothing else runs"
   | "validatePointer", 6 => "runChecksOn / runChecksC: ptrIn && hasOverwrite cs, after an accepting regular pass"
   | "validatePointer", 7 => "firstPassFrom / firstPassC afterwards; its value is the result when it has no issue and made a new pointer"
-  | "validatePointer", 9 => "otherwise the regular result, written through the pointer"
+  | "validatePointer", 9 => "overwrite attached, pass over the pointer not taken: the regular result, written through the pointer (value = Run.val of the regular pass)"
+  | "validatePointer", 11 => "no overwrite (since /repo e584c0e): the validator handed back what the pointer refers to: the caller's pointer is the result, nothing is stored (value = Run.val)"
+  | "validatePointer", 13 => "no overwrite, the validator built a new value: a pointer of its own to the regular result (value = Run.val)"
   | _, _ => "bookkeeping (no clause of the model depends on it directly)"
 
 def functions : List String := ["executeChecks", "CheckAborted", "RunChecksOnValue", "ApplyChecks", "hasOverwriteCheck", "validatePointerWithOverwrite", "validatePointer", "validateWithChecks"]
